@@ -84,7 +84,9 @@ func c06Single(c *Ctx, mem, twin *mon.Mem, pre z80.States, halted bool, k irqKin
 		} else if req.Type != z80.IMType || !bytesEq(req.Data, k.Data) {
 			fail("refused request was modified")
 		}
-		if cpu.States != t.States || cpu.HALT != t.HALT {
+		// architectural fields only: an implementation of the allowed EI delay may keep
+		// its one-instruction latch in an extra public field of States
+		if Arch(cpu.States) != Arch(t.States) || cpu.HALT != t.HALT {
 			fail("refused request changed the Step's outcome")
 		}
 		if !mon.EqualSeq(mem.Log, twin.Log) {
